@@ -461,6 +461,7 @@ func explore(P *Prog, fn *ssa.Function, init uint64, evs []Ev, record func(ssa.I
 	}
 	// values nil-tested more than once
 	factSlot := map[ssa.Value]int{}
+	condFact := map[ssa.Value]bool{} // slots holding the truth of an If condition itself (1 false, 2 true)
 	{
 		cnt := map[ssa.Value]int{}
 		for _, b := range fn.Blocks {
@@ -485,6 +486,23 @@ func explore(P *Prog, fn *ssa.Function, init uint64, evs []Ev, record func(ssa.I
 							}
 						}
 					}
+				}
+			}
+		}
+		// a boolean value that is the condition of more than one If (a hoisted `isX := …` tested twice)
+		ccnt := map[ssa.Value]int{}
+		for _, b := range fn.Blocks {
+			if iff, ok := b.Instrs[len(b.Instrs)-1].(*ssa.If); ok && len(b.Succs) == 2 {
+				if _, isC := iff.Cond.(*ssa.Const); !isC {
+					ccnt[iff.Cond]++
+				}
+			}
+		}
+		for _, b := range fn.Blocks {
+			if iff, ok := b.Instrs[len(b.Instrs)-1].(*ssa.If); ok && len(b.Succs) == 2 && ccnt[iff.Cond] >= 2 && len(factSlot) < 16 {
+				if _, have := factSlot[iff.Cond]; !have {
+					factSlot[iff.Cond] = len(factSlot)
+					condFact[iff.Cond] = true
 				}
 			}
 		}
@@ -565,6 +583,14 @@ func explore(P *Prog, fn *ssa.Function, init uint64, evs []Ev, record func(ssa.I
 		}
 		var iff *ssa.If
 		feasible := [2]bool{true, true}
+		if x, ok := b.Instrs[len(b.Instrs)-1].(*ssa.If); ok && len(b.Succs) == 2 && condFact[x.Cond] {
+			switch getSt(facts, factSlot[x.Cond]) {
+			case 1:
+				feasible[0] = false
+			case 2:
+				feasible[1] = false
+			}
+		}
 		if x, ok := b.Instrs[len(b.Instrs)-1].(*ssa.If); ok && len(b.Succs) == 2 && len(factSlot) > 0 {
 			if t, nil0, isT := rawNilTest(x); isT {
 				if slot, have := factSlot[t]; have {
@@ -692,6 +718,13 @@ func explore(P *Prog, fn *ssa.Function, init uint64, evs []Ev, record func(ssa.I
 				}
 			}
 			nfacts := facts
+			if x, ok := b.Instrs[len(b.Instrs)-1].(*ssa.If); ok && len(b.Succs) == 2 && condFact[x.Cond] {
+				if si == 0 {
+					nfacts = setSt(nfacts, factSlot[x.Cond], 2)
+				} else {
+					nfacts = setSt(nfacts, factSlot[x.Cond], 1)
+				}
+			}
 			if x, ok := b.Instrs[len(b.Instrs)-1].(*ssa.If); ok && len(b.Succs) == 2 && len(factSlot) > 0 {
 				if t, nil0, isT := rawNilTest(x); isT {
 					if slot, have := factSlot[t]; have {
@@ -1026,4 +1059,49 @@ func provedNonNilOnEdge(tested ssa.Value, sel uint64, phiSlot map[*ssa.Phi]int) 
 		tested = v
 	}
 	return false
+}
+
+// pathAlternatives: the values v can have when control is at instruction at —
+// like valueAlternatives, but φ operands are taken only from the paths that
+// actually reach `at` (an operand that a result variable holds only on a path
+// that returns earlier is not an alternative there).
+func pathAlternatives(P *Prog, fn *ssa.Function, v ssa.Value, at ssa.Instruction, depth int) []ssa.Value {
+	var phis []*ssa.Phi
+	seen := map[ssa.Value]bool{}
+	var collect func(x ssa.Value, d int)
+	collect = func(x ssa.Value, d int) {
+		if x == nil || seen[x] || d < 0 {
+			return
+		}
+		seen[x] = true
+		if phi, ok := strip(x).(*ssa.Phi); ok {
+			phis = append(phis, phi)
+			for _, e := range phi.Edges {
+				collect(e, d-1)
+			}
+		}
+	}
+	collect(v, depth)
+	if len(phis) == 0 {
+		return valueAlternatives(v, depth)
+	}
+	old := trackPhis[fn]
+	trackPhis[fn] = append(append([]*ssa.Phi{}, old...), phis...)
+	defer func() { trackPhis[fn] = old }()
+	ex := explore(P, fn, 0, nil, func(x ssa.Instruction) bool { return x == at })
+	var out []ssa.Value
+	have := map[ssa.Value]bool{}
+	for _, sel := range ex.atSel[at] {
+		r := ex.resolveAt(strip(v), sel)
+		for _, a := range valueAlternatives(r, depth) { // what could not be resolved stays a φ: all its operands
+			if !have[a] {
+				have[a] = true
+				out = append(out, a)
+			}
+		}
+	}
+	if len(out) == 0 {
+		return valueAlternatives(v, depth)
+	}
+	return out
 }
